@@ -189,7 +189,7 @@ type ReplayFile struct {
 var opNames = [...]string{"none", "Marshal", "MarshalSafe", "MarshalSize", "DestinationSSRC", "String", "Fmt%v", "Fmt%+v",
 	"Unmarshal(typed)", "rtcp.Unmarshal", "Compound.Unmarshal", "rtcp.Marshal", "rtcp.MarshalSafe", "Unit",
 	"Header", "Len", "Validate", "CNAME", "MarshalTo", "NackHelpers", "BlockDestinationSSRC",
-	"pick", "send", "recv", "mutate", "corrupt"}
+	"pick", "send", "recv", "mutate", "corrupt", "Volume"}
 
 var kindNames = [...]string{"SenderReport", "ReceiverReport", "SourceDescription", "Goodbye", "ApplicationDefined",
 	"TransportLayerNack", "RapidResynchronizationRequest", "TransportLayerCC", "CCFeedbackReport",
